@@ -32,13 +32,14 @@ def shards(tier, seed):
     for tr in ("pipe", "pipe", "tcp", "tcp", "tcp", "proxy"):
         out.append({"kind": "conc", "transport": tr, "runs": nconc})
     out.append({"kind": "slowpeer", "runs": 150 if tier == "quick" else 6000})
+    out.append({"kind": "gevent_master", "runs": 3 if tier == "quick" else 60})
     for specname in ("popen", "socket", "via"):
         out.append({"kind": "real", "spec": specname, "runs": 6 if tier == "quick" else 60})
     return out
 
 
 def run_shard(spec):
-    return {"chunk": run_chunk, "conc": run_conc, "real": run_real, "slowpeer": run_slowpeer}[spec["kind"]](spec)
+    return {"chunk": run_chunk, "conc": run_conc, "real": run_real, "slowpeer": run_slowpeer, "gevent_master": run_gevent_master}[spec["kind"]](spec)
 
 
 # ---------------------------------------------------------------------------
@@ -359,6 +360,61 @@ class SlowPeerSock:
     def recv_into(self, buf, nbytes=0):
         self._quiet()
         return self._s.recv_into(buf, nbytes)
+
+
+def run_gevent_master(spec):
+    """the initiating side itself runs the gevent model: several greenlets send frames larger than the socket buffer at the
+    same time on one socket gateway (sendall() yields to the hub in the middle of a frame)"""
+    import socket
+    import zlib
+
+    res = Result()
+    try:
+        import gevent
+    except ImportError:
+        res.info["gevent_master"] = "gevent not installed: shard skipped"
+        return res
+    import execnet
+
+    rng = core.rng_for("C08g", spec["tier"], spec["seed"], spec["shard"])
+    body = "import zlib\nfor x in channel:\n    channel.send((len(x), zlib.crc32(x)))\n"
+    for run in range(spec["runs"]):
+        group = execnet.Group(execmodel="gevent")
+        try:
+            group.makegateway("popen//id=m//execmodel=thread")
+            gw = group.makegateway("socket//installvia=m")
+            gw._io.sock.setsockopt(socket.SOL_SOCKET, socket.SO_SNDBUF, 65536)
+            T, per = rng.choice((2, 4, 6)), rng.choice((2, 3))
+            size = rng.choice((1 << 20, 4 << 20, 8 << 20))
+            chans = [gw.remote_exec(body) for _ in range(T)]
+            errs: list = []
+
+            def sender(t):
+                try:
+                    for k in range(per):
+                        data = bytes([65 + t]) * (size + 17 * t + k)
+                        chans[t].send(data)
+                        got = chans[t].receive(60)
+                        if got != (len(data), zlib.crc32(data)):
+                            errs.append(f"greenlet {t} item {k}: peer saw {got}, sent {(len(data), zlib.crc32(data))}")
+                except BaseException as e:  # noqa
+                    errs.append(f"greenlet {t}: {type(e).__name__}: {str(e)[:160]}")
+
+            gs = [gevent.spawn(sender, t) for t in range(T)]
+            gevent.joinall(gs, timeout=150)
+            res.count("gevent_master_runs")
+            res.count("frames_sent_by_concurrent_greenlets", T * per)
+            res.case(core.h64("gevent-master", run, T, per, size))
+            label = f"gevent initiator, {T} greenlets x {per} items of {size} bytes on one socket gateway"
+            if not all(g.ready() for g in gs):
+                res.violation("concurrent-send-hung:socket-gevent-master", label)
+            elif errs:
+                res.violation("concurrent-greenlet-frames-damaged:socket-gevent-master", f"{label}: {errs[0]}")
+        except BaseException as e:  # noqa
+            res.violation(f"gevent-master-run-raised:{type(e).__name__}", str(e)[-300:])
+        finally:
+            group.terminate(3.0)
+    return res
 
 
 def run_slowpeer(spec):
